@@ -1,10 +1,45 @@
 import TempestVerif.Drv.Util
-/- line-protocol handlers of property C12 (stub: no commands yet) -/
+import TempestVerif.Model.Run
+import TempestVerif.Model.Posterior
+import TempestVerif.Gen.Tables
+/- line-protocol handlers of property C12.
+   post.run n=<N> trim=<0|1> res=<0|1> blobs=<0|1> rb=<0|1> rl=<0|1> tidx=<idx> ridx=<idx>
+       particles are tags 0..N-1 in every array; the trimming / resampling index vectors are inputs
+       → names=<returned array names> x=<tags> l=<tags> b=<tags> lw=<tags> nw=<number of weights>  |  error
+   term.F tol=<f> beta=<f> ess=<f> ntotal=<f>   → 1 (continue) / 0 (stop)
+-/
 namespace Drv.C12
-open Drv
+open Drv Model.Posterior Model.Run
+
+def postRun (args : List (String × String)) : Option String := do
+  let n ← (getArg args "n").bind String.toNat?
+  let flag (k : String) : Option Bool := (getArg args k).map (· == "1")
+  let trim ← flag "trim"
+  let res ← flag "res"
+  let blobs ← flag "blobs"
+  let rb ← flag "rb"
+  let rl ← flag "rl"
+  let tidx ← (getArg args "tidx").bind parseNatList?
+  let ridx ← (getArg args "ridx").bind parseNatList?
+  let tags := List.range n
+  let a : Arrs Nat Nat Nat Nat Nat := ⟨tags, tags, tags, tags, List.replicate n 0⟩
+  let o : Opts := ⟨res, trim, rb, rl⟩
+  let r := body Gen.Tables.posteriorTrimGather Gen.Tables.posteriorResampleGather
+    (fun _ => (tidx, List.replicate tidx.length 0)) (fun _ => ridx) (fun k => List.replicate k 0) o a
+  match r with
+  | none => some "error"
+  | some r =>
+    let names := returnNames blobs o
+    some s!"names={",".intercalate names} x={showList toString r.x} l={showList toString r.l} b={showList toString r.b} lw={showList toString r.lw} nw={r.w.length}"
 
 def handle (cmd : String) (args : List (String × String)) : Option String :=
   match cmd with
+  | "post.run" => some ((postRun args).getD "bad-op")
+  | "term.F" =>
+    match (getArg args "tol").bind parseFloat?, (getArg args "beta").bind parseFloat?,
+          (getArg args "ess").bind parseFloat?, (getArg args "ntotal").bind parseFloat? with
+    | some t, some b, some e, some n => some (showBool (notTerm t b e n))
+    | _, _, _, _ => some "bad-op"
   | _ => none
 
 end Drv.C12
